@@ -151,6 +151,20 @@ Theorem C30_item_array_prefix_refuted :
   exists t j, spec_line t j = "tool '$P' 'a b'" /\ sf_line t j = "tool $P 'a b'".
 Proof. exists (tw_tool None), tw_job. vm_compute. split; reflexivity. Qed.
 
+(* An `arguments` entry has no name: it precedes every input at the same position, also one whose name is below
+   "None" (the str() of the missing name): Bam, INPUT, M.  Such names are inside [tool_ok] ([name_ok]: first
+   character above '9'), so C30_line_equiv covers them; an instance: *)
+Definition nm_tool : tool :=
+  mkT false ["tool"] [mkB 1 None true None None (VfLit "ARG")]
+      [mkI3 "z" false (Some (mkB 1 None true None None VfNone)); mkI3 "Bam" false (Some (mkB 1 None true None None VfNone));
+       mkI3 "None" false (Some (mkB 1 None true None None VfNone))].
+Definition nm_job : job := [("z", Sc (VStr "zed")); ("Bam", Sc (VStr "b.bam")); ("None", Sc (VStr "none"))].
+Example C30_argument_before_names :
+  name_ok "Bam" /\ name_ok "INPUT" /\ name_ok "None" /\
+  sf_argv nm_tool nm_job = Some ["tool"; "ARG"; "b.bam"; "none"; "zed"] /\
+  spec_argv nm_tool nm_job = ["tool"; "ARG"; "b.bam"; "none"; "zed"].
+Proof. repeat split; try (apply name_ok_head; reflexivity); vm_compute; reflexivity. Qed.
+
 (* non-vacuity *)
 Definition ex_tool : tool :=
   mkT true ["python"; "dump tool.py"]
